@@ -77,17 +77,33 @@ Fixpoint value_eqb (a b : value) : bool :=
 Definition ws_ranges : list (Z * Z) :=
   [(9, 13); (28, 32); (133, 133); (160, 160); (5760, 5760); (8192, 8202); (8232, 8233);
    (8239, 8239); (8287, 8287); (12288, 12288)].
+(* the code points int(str) and float(str) skip around the number: CPython maps the non-ASCII
+   Py_UNICODE_ISSPACE characters to a blank and then skips the C-locale isspace() characters, so the
+   ASCII separators U+001C..U+001F - whitespace for str.strip() - are NOT skipped:
+   int("\x1f2") raises ValueError although "\x1f2".strip() == "2"
+   (validated exhaustively over all code points on every run as well)                        *)
+Definition num_ws_ranges : list (Z * Z) :=
+  [(9, 13); (32, 32); (133, 133); (160, 160); (5760, 5760); (8192, 8202); (8232, 8233);
+   (8239, 8239); (8287, 8287); (12288, 12288)].
 Definition in_ranges (rs : list (Z * Z)) (c : Z) : bool :=
   existsb (fun r => (fst r <=? c) && (c <=? snd r)) rs.
 Definition is_ws (c : Z) : bool := in_ranges ws_ranges c.
+Definition is_num_ws (c : Z) : bool := in_ranges num_ws_ranges c.
 
-Fixpoint lstrip (s : str) : str :=
-  match s with
-  | [] => []
-  | c :: s' => if is_ws c then lstrip s' else s
-  end.
-Definition rstrip (s : str) : str := rev (lstrip (rev s)).
-Definition py_strip (s : str) : str := rstrip (lstrip s).
+Section Strip.
+  Variable p : Z -> bool.
+  Fixpoint lstrip_by (s : list Z) : list Z :=
+    match s with
+    | [] => []
+    | c :: s' => if p c then lstrip_by s' else s
+    end.
+  Definition rstrip_by (s : list Z) : list Z := rev (lstrip_by (rev s)).
+  Definition strip_by (s : list Z) : list Z := rstrip_by (lstrip_by s).
+End Strip.
+Definition lstrip : str -> str := lstrip_by is_ws.
+Definition rstrip : str -> str := rstrip_by is_ws.
+Definition py_strip : str -> str := strip_by is_ws.        (* str.strip() *)
+Definition num_strip : str -> str := strip_by is_num_ws.   (* what int() / float() skip *)
 
 Definition is_ascii (s : str) : bool := forallb (fun c => (0 <=? c) && (c <? 128)) s.
 Definition lower_c (c : Z) : Z := if (65 <=? c) && (c <=? 90) then c + 32 else c.
@@ -189,15 +205,15 @@ Definition float_of_Z (z : Z) : outcome spec_float :=
   let s := z <? 0 in
   let a := Z.abs z in
   let n := Z.log2 a + 1 in
-  if n <=? 53 then Ok (S754_finite s (Z.to_pos (a * 2 ^ (53 - n))) (n - 53))
+  if n <=? 53 then Ok (S754_finite s (Z.to_pos (Z.shiftl a (53 - n))) (n - 53))
   else
     let sh := n - 53 in
-    let q := a / 2 ^ sh in
-    let r := a mod 2 ^ sh in
-    let half := 2 ^ (sh - 1) in
+    let q := Z.shiftr a sh in                 (* a / 2^sh *)
+    let r := Z.land a (Z.ones sh) in          (* a mod 2^sh *)
+    let half := Z.shiftl 1 (sh - 1) in
     let q' := if (r >? half) || ((r =? half) && Z.odd q) then q + 1 else q in
-    let m := if q' =? 2 ^ 53 then 2 ^ 52 else q' in
-    let e := if q' =? 2 ^ 53 then sh + 1 else sh in
+    let m := if q' =? 9007199254740992 then 4503599627370496 else q' in
+    let e := if q' =? 9007199254740992 then sh + 1 else sh in
     if e + 53 >? 1024 then Raise OverflowErrorC else Ok (S754_finite s (Z.to_pos m) e).
 
 Definition sf_one : spec_float := S754_finite false 4503599627370496 (-52).
@@ -260,6 +276,7 @@ Record oracles : Type := {
   o_lower : str -> str;                        (* str.lower on strings with non-ASCII characters *)
   o_upper : str -> str;                        (* str.upper on strings with non-ASCII characters *)
   o_int_of_str : str -> outcome Z;             (* int(s) outside the canonical decimal forms; raises ValueError *)
+  o_int_of_bytes : list Z -> outcome Z;        (* int(b) for a bytes object; raises ValueError *)
   o_float_of_str : str -> outcome spec_float;  (* float(s); raises ValueError *)
   o_uuid : str -> outcome value;               (* uuid.UUID(s); raises ValueError *)
   o_fromiso : value -> outcome value;          (* datetime.fromisoformat(v); raises TypeError, ValueError *)
@@ -281,7 +298,7 @@ Section WithOracles.
   Definition py_lower (s : str) : str := if is_ascii s then map lower_c s else o_lower O s.
   Definition py_upper (s : str) : str := if is_ascii s then map upper_c s else o_upper O s.
   Definition py_int_of_str (s : str) : outcome Z :=
-    match parse_dec (py_strip s) with Some z => Ok z | None => o_int_of_str O s end.
+    match parse_dec (num_strip s) with Some z => Ok z | None => o_int_of_str O s end.
 
   (* int(v) *)
   Definition py_int (v : value) : outcome Z :=
@@ -290,6 +307,7 @@ Section WithOracles.
     | VInt z => Ok z
     | VFloat f => int_of_float f
     | VStr s => py_int_of_str s
+    | VBytes s => o_int_of_bytes O s
     | _ => Raise TypeErrorC
     end.
 
